@@ -914,3 +914,29 @@ Section LatitudeR.
       rewrite !Nat.ltb_irrefl. reflexivity.
   Qed.
 End LatitudeR.
+
+(** *** periodic overlap over the reals, pointwise: under the precondition
+    "the two widths add up to at most period/2" (and both cells within 3/2
+    periods of each other, as is the case after [% period]) the coded
+    [_periodic_overlap] is the true periodic overlap, i.e. the sum of the
+    overlaps with the three shifted copies of the second cell. *)
+Section PeriodicR.
+  Local Open Scope R_scope.
+Ltac no_dec t := lazymatch t with context [Rle_dec _ _] => fail | _ => idtac end.
+Ltac split_le :=
+  repeat (match goal with
+          | |- context [Rle_dec ?a ?b] => no_dec a; no_dec b; destruct (Rle_dec a b); cbn; try (exfalso; lra)
+          end).
+
+  Lemma per_overlap_shifted_R (P x0 x1 y0 y1 : R) :
+  0 < P -> x0 <= x1 -> y0 <= y1 -> (x1 - x0) + (y1 - y0) <= P / 2 ->
+  - (3 * P / 2) < y0 - x0 -> y1 - x0 < 3 * P / 2 ->
+  @per_overlap R ROps P x0 x1 y0 y1
+  = @ov R ROps x0 x1 (y0 - P) (y1 - P) + @ov R ROps x0 x1 y0 y1 + @ov R ROps x0 x1 (y0 + P) (y1 + P).
+Proof.
+  intros HP Hx Hy Hw Hlo Hhi.
+  unfold per_overlap, align_phase, ov, fmax, fmin, fltb, ind, two. cbn. unfold Rleb.
+  replace (1 + 1) with 2 by lra.
+  split_le; cbn; lra.
+Qed.
+End PeriodicR.
